@@ -1719,9 +1719,21 @@ impl<'a, Target: Composer + ?Sized> OptBuilder<'a, Target> {
     where
         F: FnOnce(&mut Target) -> Result<(), Target::AppendError>,
     {
-        code.compose(self.target)?;
-        option_len.compose(self.target)?;
-        op(self.target)
+        // If anything fails, leave the record as it was.
+        let pos = self.target.as_ref().len();
+        if let Err(err) = code.compose(self.target) {
+            self.target.truncate(pos);
+            return Err(err);
+        }
+        if let Err(err) = option_len.compose(self.target) {
+            self.target.truncate(pos);
+            return Err(err);
+        }
+        if let Err(err) = op(self.target) {
+            self.target.truncate(pos);
+            return Err(err);
+        }
+        Ok(())
     }
 
     /// Returns the current UDP payload size field of the OPT record.
